@@ -638,6 +638,9 @@ def job_history(job, scratch):
     pool = job["pool"]
     ns_cache = {}
     obs = []
+    # optional heap offset for the whole world (replays of address-dependent violations
+    # carry the offset under which they were confirmed to reproduce)
+    world_junk = [[object() for _ in range(997)] for _ in range(int(job.get("junk", 0)) // 997)]
     junk = []
     for i, op in enumerate(job["ops"]):
         if op["op"] == "api":
@@ -961,6 +964,13 @@ def main(tier, seed):
                 op["stable"] = True
         for op in ops[len(ops) // 2:]:
             op["ambient"] = gen_ambient(r3)
+        # one parsed Namespace handed to main_driver twice in a row (consumable state in the
+        # Namespace: file handles, iterators, lists that a run empties) -- systematically for
+        # families with a ligand, and for every third family otherwise
+        if fi % 3 == 0 or any(any(a.startswith("--ligand") for a in c.get("argv", [])) for c in sub):
+            for j in order[:4]:
+                ops += [{"op": "run", "cfg_index": j, "entry": "main_driver_reuse"},
+                        {"op": "run", "cfg_index": j, "entry": "main_driver_reuse"}]
         hists.append({"id": f"hf{fi}", "kind": "c11.history", "seed": seed * 1_000_003 + 777 + fi,
                       "ops": ops, "pool": sub})
     for h in range(n_hist):
@@ -1224,9 +1234,22 @@ def main(tier, seed):
                     op["cfg"] = h["pool"][op.pop("cfg_index")]
                 expl.append(op)
             env = dict(next(s[1] for s in servers if s[0] == name))
-            path = evidence.write_replay("C11", h["seed"], {
-                "kind": bad["kind"], "ops": expl, "server_env": env, "detail": bad,
-                "original_len": len(h["ops"])})
+            doc = {"kind": bad["kind"], "ops": expl, "server_env": env, "detail": bad,
+                   "original_len": len(h["ops"]), "property": "C11"}
+            # `./verif replay` runs the history as the first job of a fresh server (address
+            # randomisation off), i.e. in one canonical memory layout.  A violation that
+            # depends on object addresses may need a different heap offset there: find one
+            # under which it reproduces and store it in the file.
+            doc["reproducibility"] = "not confirmed in the canonical replay layout"
+            for wj in (0, 50_000, 200_000, 7_000, 1_000_000, 333_000, 20_000, 600_000):
+                doc["world_junk"] = wj
+                try:
+                    if replay(doc, quiet=True) == 1:
+                        doc["reproducibility"] = "confirmed in the canonical replay layout"
+                        break
+                except driver.HarnessError:
+                    break
+            path = evidence.write_replay("C11", h["seed"], doc)
             replay_paths.append(path)
             violations.append(bad)
         for n, v in enumerate(v for v in violations if v["kind"] == "fresh-process-nondeterminism"):
@@ -1301,9 +1324,10 @@ def main(tier, seed):
     return 0
 
 
-def replay(doc):
+def replay(doc, quiet=False):
     from sim import driver
 
+    say = (lambda *a: None) if quiet else print
     ops = doc["ops"]
     cfgs = {}
     for op in ops:
@@ -1317,13 +1341,14 @@ def replay(doc):
                                for n, _, _ in specs})
         vals = {n: (res[n]["r"]["result"]["outcome"], res[n]["r"]["result"]["sha"])
                 for n in res if "result" in res[n].get("r", {})}
-        print("replay: " + json.dumps(vals))
+        say("replay: " + json.dumps(vals))
         return 1 if len(set(vals.values())) > 1 else 0
     env = doc.get("server_env") or {"PYTHONHASHSEED": "0"}
     specs = [("W", env, 2), ("R", {"PYTHONHASHSEED": "0"}, 4)]
     with driver.ServerPool(specs) as pool:
         rj = [{"id": f"r{i}", "kind": "c11.ref", "cfg": c} for i, c in enumerate(cfgs.values())]
-        res, _ = pool.run({"W": [{"id": "h", "kind": "c11.history", "ops": ops, "pool": []}],
+        res, _ = pool.run({"W": [{"id": "h", "kind": "c11.history", "ops": ops, "pool": [],
+                                  "junk": doc.get("world_junk", 0)}],
                            "R": rj})
     refs = {}
     for i, k in enumerate(cfgs):
@@ -1332,8 +1357,8 @@ def replay(doc):
             refs[k] = m["result"]
     m = res["W"].get("h", {})
     if "result" not in m:
-        print("HARNESS-ERROR " + json.dumps(m)[:1500])
+        say("HARNESS-ERROR " + json.dumps(m)[:1500])
         return 2
     bad = compare_history(ops, m["result"]["obs"], [], refs)
-    print("replay: " + json.dumps(bad))
+    say("replay: " + json.dumps(bad))
     return 1 if bad and bad["kind"] == doc["kind"] else 0
